@@ -320,7 +320,14 @@ def lazy_cases(draw):
     return {"patt": patt, "t": t, "sched": draw(st.lists(st.integers(0, 5), max_size=14))}
 
 
+@st.composite
+def long_mesh_cases(draw):
+    p, t = draw(gen.planted(3, 16))
+    return [[p, draw(gen.shadings(len(p), draw(st.sampled_from(["sparse", "sparse", "lines", "half"]))))], t]
+
+
 def shard_generated(acc, shard, nshards, n_mesh, n_biv, n_mixed):
+    engine.hyp_run(acc, "mesh", check_mesh, long_mesh_cases(), max(10, n_mesh // 5), shard)
     engine.hyp_run(acc, "lazy", check_lazy, lazy_cases(), n_mixed, shard)
     engine.hyp_run(acc, "mesh", check_mesh, mesh_cases(), n_mesh, shard)
     engine.hyp_run(acc, "biv", check_biv, biv_cases(), n_biv, shard)
